@@ -33,6 +33,14 @@ def optJ {α} (f : α → Json) : Option α → Json
   | some a => f a
 def listJ {α} (f : α → Json) (l : List α) : Json := Json.arr (l.map f).toArray
 
+def DNode.toJson (n : DNode) : Json :=
+  let base : List (String × Json) := [("c", n.c.toJson), ("d", optJ Ts.toJson n.d), ("p", optJ Ts.toJson n.parent)]
+  match n.kind with
+  | .elem v => Json.mkObj (base ++ [("t", Json.str "E"), ("e", v.toJson)])
+  | .obj m sz => Json.mkObj (base ++ [("t", Json.str "O"), ("m", Json.mkObj (m.map fun (k, c) => (k, c.toJson))), ("s", jint sz)])
+  | .arr sl sz => Json.mkObj (base ++ [("t", Json.str "A"),
+      ("n", listJ (fun (s : Ts × Ts) => Json.arr #[s.1.toJson, s.2.toJson]) sl), ("s", jint sz)])
+
 def DState.toJson : DState → Json
   | .counter v => Json.mkObj [("c", jint v)]
   | .map m => Json.mkObj [
@@ -43,16 +51,19 @@ def DState.toJson : DState → Json
       ("n", listJ (fun (n : RNode) =>
         Json.mkObj [("o", n.o.toJson), ("t", n.t.toJson), ("v", optJ JVal.toJson n.v)]) l.nodes),
       ("size", jint l.size)]
+  | .doc d => Json.mkObj [("nodes", listJ DNode.toJson d.table)]
 
 def DState.view : DState → Json
   | .counter v => Json.mkObj [("Counter", jint v)]
   | .map m => Json.mkObj (m.live.map fun (k, v) => (k, v.toJson))
   | .list l => Json.mkObj [("List", listJ JVal.toJson l.live)]
+  | .doc d => d.view.toJson
 
 def DState.sizeJ : DState → Json
   | .counter _ => Json.null
   | .map m => jint m.size
   | .list l => jint l.size
+  | .doc _ => Json.null
 
 def Op.toJson (o : Op) : Json :=
   let idj := ("id", o.id.toJson)
@@ -66,12 +77,18 @@ def Op.toJson (o : Op) : Json :=
   | .insert _ t vs => Json.mkObj [idj, ("t", "ins"), ("T", optJ Ts.toJson t), ("V", listJ JVal.toJson vs)]
   | .delete _ _ tg => Json.mkObj [idj, ("t", "del"), ("T", listJ Ts.toJson tg)]
   | .update _ tg vs => Json.mkObj [idj, ("t", "upd"), ("T", listJ Ts.toJson tg), ("V", listJ JVal.toJson vs)]
+  | .docPut p k v => Json.mkObj [idj, ("t", "dput"), ("P", p.toJson), ("K", Json.str k), ("V", v.toJson)]
+  | .docRemove p k => Json.mkObj [idj, ("t", "drm"), ("P", p.toJson), ("K", Json.str k)]
+  | .docInsert p _ t vs => Json.mkObj [idj, ("t", "dins"), ("P", p.toJson), ("T", optJ Ts.toJson t), ("V", listJ JVal.toJson vs)]
+  | .docDelete p _ _ tg => Json.mkObj [idj, ("t", "ddel"), ("P", p.toJson), ("T", listJ Ts.toJson tg)]
+  | .docUpdate p _ tg vs => Json.mkObj [idj, ("t", "dupd"), ("P", p.toJson), ("T", listJ Ts.toJson tg), ("V", listJ JVal.toJson vs)]
 
 def Ret.toJson : Ret → Json
   | .none => Json.null
   | .int i => jint i
   | .val v => optJ JVal.toJson v
   | .vals vs => listJ JVal.toJson vs
+  | .nodes ids => listJ Ts.toJson ids
 
 def getS (j : Json) (k : String) : String := (j.getObjValAs? String k).toOption.getD ""
 def getI (j : Json) (k : String) : Int := (j.getObjValAs? Int k).toOption.getD 0
